@@ -141,6 +141,29 @@ mod verif_witness {
 			i += 1;
 		}
 	}
+	// odd length and a one-element chunk (a pairwise-unrolled loop must not drop the last element)
+	#[kani::proof]
+	#[kani::unwind(6)]
+	fn vk_sequence_apply_is_stream_odd() {
+		use crate::core::Sequence;
+		use crate::methods::Change;
+		let a = [small(), small(), small()];
+		let mut s = a;
+		let mut m1 = Change::new(1, &a[0]).unwrap();
+		let mut m2 = Change::new(1, &a[0]).unwrap();
+		Sequence::apply(&mut s, &mut m1);
+		let mut one = [small()];
+		let x = one[0];
+		Sequence::apply(&mut one, &mut m1);
+		let mut i = 0;
+		while i < 3 {
+			let y = m2.next(&a[i]);
+			assert!(s[i].to_bits() == y.to_bits());
+			i += 1;
+		}
+		let y = m2.next(&x);
+		assert!(one[0].to_bits() == y.to_bits());
+	}
 	#[kani::proof]
 	#[kani::unwind(6)]
 	fn vk_method_new_apply_is_stream() {
